@@ -131,7 +131,7 @@ Definition read_atom (m : option str) (t : token) : outcome val :=
             end
   | KString => let* s := strip 1 1 (ttext t) in Ok (VStr (unescape s))
   | KRawString =>
-      if str_eqb (ttext t) [RAWQ] then rerr "expected '¬', got EOF" (tok_pos m t)
+      if str_eqb (ttext t) [RAWQ] then Err (VLispErr (VGoErr (s_ "expected '" ++ [RAWQ] ++ s_ "', got EOF")) (tok_pos m t))
       else let* s := strip 1 1 (ttext t) in Ok (VStr (undouble s))
   | KKeyword => let* s := strip 1 0 (ttext t) in Ok (VStr (KW :: s))
   | KFloat => if float_overflows (ttext t) then rerr "float parse error" (tok_pos m t) else Ok (VOther (ttext t))
@@ -181,13 +181,13 @@ Section Reader.
     | 3%nat => new_set (VList items p)
     | _ =>
         match items with
-        | [] => rerr "expected a type name after '«'" p
+        | [] => rerr "expected a type name after the opening bracket" p
         | VSym name _ :: args =>
             match ext with
             | None => rerr "no environment to look up constructor" p
             | Some f => f name args
             end
-        | _ :: _ => rerr "cannot use as type name after '«'" p
+        | _ :: _ => rerr "cannot use as type name after the opening bracket" p
         end
     end.
 
